@@ -378,6 +378,24 @@ func runC05(p *Prog, r *Report) {
 		switch {
 		case e == ssa.Value(scanPhi):
 			ok := len(updates) == 1 && updates[0].Block().Dominates(pred)
+			if !ok && len(updates) == 1 {
+				// the packages were obtained either by the one cache write or by a hit in that cache
+				// (the store may sit on the miss branch only): cut both and the edge must be unreachable
+				hits, _ := guardEdges(fn, func(c ssa.Value) (bool, bool) {
+					ex, isEx := c.(*ssa.Extract)
+					if !isEx || ex.Index != 1 {
+						return false, false
+					}
+					lk, isLk := ex.Tuple.(*ssa.Lookup)
+					return isLk && lk.CommaOk && sameValue(lk.X, cacheMap) && sameValue(lk.Index, updates[0].Key), true
+				})
+				ub := updates[0].Block()
+				cut := append([]Edge{}, hits...)
+				for k := range ub.Succs {
+					cut = append(cut, Edge{ub, k})
+				}
+				ok = len(hits) > 0 && onlyVia(fn, pred, cut)
+			}
 			r.Check(ok, "D3-skip", site, pos, "recorded as latest scanned only after its packages were obtained and compared", "a layer is recorded as the latest scanned one on a path that did not obtain and compare its packages")
 		case e == ssa.Value(lastPhi):
 			ok := len(sanct) > 0 && onlyVia(fn, pred, sanct)
